@@ -41,9 +41,9 @@ class OracleQueryBuilder(QueryBuilder):
     def _offset_sql(self, ctx: SqlContext) -> str:
         if self._offset is None:
             return ""
-        return " OFFSET {offset} ROWS".format(offset=self._offset.get_sql(ctx))
+        return " OFFSET {offset} ROWS".format(offset=self._offset.get_sql(ctx.copy(with_alias=False)))
 
     def _limit_sql(self, ctx: SqlContext) -> str:
         if self._limit is None:
             return ""
-        return " FETCH NEXT {limit} ROWS ONLY".format(limit=self._limit.get_sql(ctx))
+        return " FETCH NEXT {limit} ROWS ONLY".format(limit=self._limit.get_sql(ctx.copy(with_alias=False)))
